@@ -314,6 +314,9 @@ func C06(c *vf.Check) {
 			u := dense[idxOf[k]]
 			src := coR.fn(u, units[u])
 			exp := canon(J{"log": orEmpty(cc.Log), "panic": cc.Panic})
+			if r.Status == "notrun" {
+				continue
+			}
 			if r.Status != "ok" {
 				if status[u] == "" {
 					c.Violation(J{"config": what, "consumer": cc.Main, "tape": cc.Tape, "status": r.Status, "source": src}, fmt.Sprintf("[%s] consumer did not finish (%s):\n%s", what, r.Status, src))
